@@ -20,6 +20,10 @@ CORPUS = {
                                                           "let org = /orgs/{ 'org int };\nlet members = concat org (/members?{ 'org str });\nres members on get -> <status=200, [item]>;\n",
     "path-variable-names-with-punctuation": "let rev = /items/{ 'item-id int }/revisions/{ 'rev_no int };\nres /items/{ 'item-id int } on get -> <{}>;\nres rev on get -> <{}>;\n"
                                             "let joined = concat /plain/{ 'x$y str } (/sub/{ 'a-b-c int });\nres joined on get -> <{}>;\n",
+    # path variables whose type is not written as a bare primitive: an explicit reference, an alias, an operator, an annotated type
+    "path-variables-typed-through-references-and-operators": "let @itemId = int `minimum: 1`;\nlet slug = str `pattern: \"[a-z-]+\"`;\nlet key = int | str;\n"
+                                                             "res /items/{ 'id @itemId } on get -> <{}>;\nres /posts/{ 'slug slug } on get -> <{}>;\nres /any/{ 'key key } on get -> <{}>;\n"
+                                                             "res /pair/{ 'a @itemId }/{ 'b (int | num) } on get -> <{}>;\nres /things/{ 'id (rec x int) } on get -> <{}>;\n",
     "paths-that-differ-by-a-trailing-slash": "res /items on get -> <{}>;\nres /items/ on get -> <{}>;\nres / on get -> <{}>;\nres /items/{ 'id int } on get -> <{}>;\nres /items/{ 'id int }/ on get -> <{}>;\n",
     "reference-names-with-punctuation": "let @money$amount = { 'value num, 'currency str };\nlet @line-item = { 'price @money$amount, 'next? @line-item };\nres /invoice on get -> <{ 'total @money$amount, 'lines [@line-item] }>;\n",
     "resources-without-transfers": "let item = /items/{ 'id int };\nres item;\nres /health;\nres concat item /parts/{ 'part str };\nres /other/{ 'k num } on get -> <{}>;\n",
